@@ -642,9 +642,291 @@ func c13MakeCmd(g *Gen) (string, []byte) {
 	}
 }
 
+// ---- structured logs: set-like tables, add / remove / re-add of the SAME key ----------
+
+// c13Scenario: one key of a set-like table is added, removed and re-added (the order in
+// which staged deletions and insertions of the SAME key must be seen by later commands of
+// the same write batch), preceded by whatever row the family needs and followed by a few
+// random mutations of the same key.
+func c13Scenario(g *Gen, family int) (string, [][]byte) {
+	ch := []string{"g1", "c2"}[g.R.Intn(2)]
+	var out [][]byte
+	var name string
+	var add, rem func() []byte
+	switch family % 7 {
+	case 0:
+		name = "subscribers"
+		out = append(out, fsm.EncodeUpsertChannelCommand(metadb.Channel{ChannelID: ch, ChannelType: 2}))
+		ver := uint64(0)
+		versioned := g.R.Chance(30)
+		next := func() uint64 {
+			if versioned {
+				ver++
+			}
+			return ver
+		}
+		uids := func() []string {
+			if g.R.Chance(20) {
+				return []string{"u1", "u2"}
+			}
+			return []string{"u1"}
+		}
+		add = func() []byte { return fsm.EncodeAddSubscribersCommand(ch, 2, uids(), next()) }
+		rem = func() []byte { return fsm.EncodeRemoveSubscribersCommand(ch, 2, uids(), next()) }
+	case 1:
+		name = "channel-row"
+		chn := func() metadb.Channel {
+			return metadb.Channel{ChannelID: ch, ChannelType: 2, Ban: int64(g.R.Intn(2)), Large: int64(g.R.Intn(2))}
+		}
+		add = func() []byte {
+			switch g.R.Intn(3) {
+			case 0:
+				return fsm.EncodeCreateChannelCommand(chn())
+			case 1:
+				return fsm.EncodeUpsertChannelCommand(chn())
+			}
+			return fsm.EncodePatchChannelBusinessFlagsCommand(ch, 2, c13Rand[metadb.ChannelBusinessFlags](g))
+		}
+		rem = func() []byte { return fsm.EncodeDeleteChannelCommand(ch, 2) }
+	case 2:
+		name = "membership"
+		ms := func() []metadb.UserChannelMembership {
+			m := c13Rand[metadb.UserChannelMembership](g)
+			m.UID, m.ChannelID, m.ChannelType = "u1", ch, 2
+			return []metadb.UserChannelMembership{m}
+		}
+		add = func() []byte {
+			if g.R.Chance(25) {
+				return fsm.EncodeActivateUserChannelMembershipCommand(ms())
+			}
+			return fsm.EncodeUpsertUserChannelMembershipsCommand(ms())
+		}
+		rem = func() []byte {
+			if g.R.Chance(30) {
+				return fsm.EncodeHideUserChannelMembershipCommand(ms())
+			}
+			return fsm.EncodeDeleteUserChannelMembershipsCommand(ms())
+		}
+	case 3:
+		name = "cmd-membership"
+		ms := func() []metadb.UserCMDChannelMembership {
+			m := c13Rand[metadb.UserCMDChannelMembership](g)
+			m.UID, m.CommandChannelID, m.ChannelType = "u1", ch, 2
+			return []metadb.UserCMDChannelMembership{m}
+		}
+		add = func() []byte {
+			if g.R.Chance(25) {
+				return fsm.EncodeAdvanceUserCMDChannelMembershipAcksCommand(ms())
+			}
+			return fsm.EncodeUpsertUserCMDChannelMembershipsCommand(ms())
+		}
+		rem = func() []byte { return fsm.EncodeTombstoneUserCMDChannelMembershipsCommand(ms()) }
+	case 4:
+		name = "plugin-binding"
+		add = func() []byte {
+			b := c13Rand[metadb.PluginUserBinding](g)
+			b.UID = "u1"
+			return fsm.EncodeBindPluginUserCommand(b)
+		}
+		rem = func() []byte { return fsm.EncodeUnbindPluginUserCommand("u1", []string{"p1", "p2"}[g.R.Intn(2)]) }
+	case 5:
+		name = "runtime-meta-row"
+		meta := func() metadb.ChannelRuntimeMeta {
+			m := c13Rand[metadb.ChannelRuntimeMeta](g)
+			c13FixRuntimeMeta(g, &m)
+			m.ChannelID, m.ChannelType = ch, 2
+			return m
+		}
+		add = func() []byte {
+			if g.R.Bool() {
+				if b := c13Checked(fsm.EncodeCreateChannelRuntimeMetaBatchCommandChecked([]fsm.CreateChannelRuntimeMetaBatchItem{{HashSlot: 1, Meta: meta()}})); b != nil {
+					return b
+				}
+			}
+			return fsm.EncodeUpsertChannelRuntimeMetaCommand(meta())
+		}
+		rem = func() []byte { return fsm.EncodeDeleteChannelRuntimeMetaCommand(ch, 2) }
+	default:
+		name = "user-device"
+		add = func() []byte {
+			u := c13Rand[metadb.User](g)
+			u.UID = "u1"
+			if g.R.Bool() {
+				return fsm.EncodeCreateUserCommand(u)
+			}
+			return fsm.EncodeUpsertUserCommand(u)
+		}
+		rem = func() []byte {
+			d := c13Rand[metadb.Device](g)
+			d.UID = "u1"
+			return fsm.EncodeUpsertDeviceCommand(d)
+		}
+	}
+	out = append(out, add(), rem(), add())
+	for extra := g.R.Range(0, 2); extra > 0 && len(out) < 6; extra-- {
+		if g.R.Bool() {
+			out = append(out, add())
+		} else {
+			out = append(out, rem())
+		}
+	}
+	return name, out
+}
+
+// all compositions of n (every way to cut the log into consecutive batches)
+func c13Compositions(n int) [][]int {
+	var out [][]int
+	for mask := 0; mask < 1<<(n-1); mask++ {
+		var parts []int
+		run := 1
+		for i := 0; i < n-1; i++ {
+			if mask&(1<<i) != 0 {
+				parts = append(parts, run)
+				run = 1
+			} else {
+				run++
+			}
+		}
+		out = append(out, append(parts, run))
+	}
+	return out
+}
+
+func genC13Scenario(g *Gen, family int) {
+	name, cmds := c13Scenario(g, family)
+	g.Count("scenario:" + name)
+	for i, d := range cmds {
+		g.Op("c", "%d %d %d %s %s", i+1, c13Slot, 1, Hex(d), "scn:"+name)
+	}
+	ones := make([]string, len(cmds))
+	for i := range ones {
+		ones[i] = "1"
+	}
+	g.Op("run", "%s", strings.Join(ones, ","))
+	for _, parts := range c13Compositions(len(cmds)) {
+		if len(parts) == len(cmds) {
+			continue
+		}
+		p := make([]string, len(parts))
+		for i, x := range parts {
+			p[i] = strconv.Itoa(x)
+		}
+		g.Op("run", "%s", strings.Join(p, ","))
+	}
+}
+
+// ---- structure-aware malformed payloads -------------------------------------------
+
+type c13Field struct {
+	tag byte
+	val []byte
+}
+
+func c13Fields(body []byte) ([]c13Field, bool) {
+	var out []c13Field
+	for len(body) > 0 {
+		if len(body) < 5 {
+			return nil, false
+		}
+		n := int(body[1])<<24 | int(body[2])<<16 | int(body[3])<<8 | int(body[4])
+		if n > len(body)-5 {
+			return nil, false
+		}
+		out = append(out, c13Field{body[0], body[5 : 5+n]})
+		body = body[5+n:]
+	}
+	return out, true
+}
+
+func c13Encode(hdr []byte, fs []c13Field) []byte {
+	out := append([]byte(nil), hdr...)
+	for _, f := range fs {
+		n := len(f.val)
+		out = append(out, f.tag, byte(n>>24), byte(n>>16), byte(n>>8), byte(n))
+		out = append(out, f.val...)
+	}
+	return out
+}
+
+// genC13Sweep: for one well-formed command of EVERY type, keep the outer TLV framing valid and
+// give each top-level field every length 0..24 and len-2..len+2 (cut, or extended with bytes 0/1/random)
+func genC13Sweep(g *Gen) {
+	idx := 0
+	emit := func(name string, data []byte) {
+		idx++
+		g.Op("c", "%d %d %d %s %s", idx, c13Slot, g.R.Range(1, 3), Hex(data), name)
+	}
+	for _, m := range c13Makers {
+		var base []byte
+		for try := 0; try < 20 && len(base) < 2; try++ {
+			base = m.make(g)
+		}
+		if len(base) < 2 {
+			continue
+		}
+		fs, ok := c13Fields(base[2:])
+		if !ok {
+			continue
+		}
+		g.Count("sweep:type")
+		for fi := range fs {
+			orig := fs[fi].val
+			lens := map[int]bool{}
+			for l := 0; l <= 24; l++ {
+				lens[l] = true
+			}
+			for l := len(orig) - 2; l <= len(orig)+2; l++ {
+				if l >= 0 {
+					lens[l] = true
+				}
+			}
+			for l := 0; l <= len(orig)+2 && l <= 4096; l++ {
+				if !lens[l] || l == len(orig) {
+					continue
+				}
+				var v []byte
+				if l <= len(orig) {
+					v = orig[:l]
+				} else {
+					v = append(append([]byte(nil), orig...), make([]byte, l-len(orig))...)
+					for k := len(orig); k < l; k++ {
+						v[k] = []byte{0, 1, byte(g.R.U64())}[g.R.Intn(3)]
+					}
+				}
+				alt := append([]c13Field(nil), fs...)
+				alt[fi] = c13Field{fs[fi].tag, v}
+				g.Count("sweep:altered-field-length")
+				emit("swp:"+m.name, c13Encode(base[:2], alt))
+			}
+		}
+	}
+	ones := make([]string, 0, 64)
+	for i := 0; i < 40; i++ {
+		ones = append(ones, "1")
+	}
+	// the leftover of a plan is applied one at a time by the runner
+	g.Op("run", "%s", strings.Join(ones, ","))
+	g.Op("run", "%d,%d,%d", g.R.Range(2, 9), g.R.Range(2, 30), g.R.Range(2, 60))
+}
+
 func genC13(g *Gen) {
 	for c := 0; c < g.N; c++ {
 		g.Case()
+		if c == 0 {
+			g.Count("log:field-length-sweep")
+			genC13Sweep(g)
+			continue
+		}
+		if c <= 7 || g.R.Chance(15) {
+			// cases 1..7 of every shard: one add / remove / re-add scenario per set-like table, ALL partitions
+			g.Count("log:set-table-scenario")
+			family := c - 1
+			if c > 7 {
+				family = g.R.Intn(7)
+			}
+			genC13Scenario(g, family)
+			continue
+		}
 		n := g.R.Range(12, 40)
 		c13Clean = g.R.Chance(60)
 		if c13Clean {
